@@ -29,7 +29,7 @@ import Glom.Lemmas.C05ReadTree
     c05_text_clause4   every failed branch of a call on the path: its spec line and its error text
     c05_text_clause5   every top-level `Spec:` line shows a call that raised / a step of a chain that raised
     c05_text_check     all of them: `checkC05 (events t) errText e (traceText (events t) errText e width)`
-    c05_text_lift_partial / c05_text_check_of_clause3   clauses 1, 2, 4, 5 without the hypotheses of clause 3
+    c05_text_lift_partial   clauses 1, 2, 4, 5 without the hypotheses of clause 3
 
   Method: the text is described generically (Lemmas/C05Text.lean, for every frame store that can be
   rendered: the pieces of a text `allSegs`, the marks `\` / `X` only touch gutters `GPre`, the
@@ -324,6 +324,37 @@ theorem c05_text_check (t : Tree) (hwf : t.wf = true) (errText : Nat → Str) (w
   have h5 := c05_text_clause5 t hwf errText width hrepr herr.labelFree
   unfold traceLines at h1 h2 h3 h4 h5
   rw [h1, h2, h3, h4, h5]
+  rfl
+
+/-- **the lift without the hypotheses of clause 3**: clauses 1, 2, 4 and 5 hold of the model's text as
+    soon as spec / target texts have no line break and no line of an error text reads as a `Spec:`
+    line (`ErrLabelFree`) — whatever target identities and later specs are. -/
+theorem c05_text_lift_partial (t : Tree) (hwf : t.wf = true) (errText : Nat → Str) (width : Nat)
+    (hrepr : ∀ c, c ∈ callsOf (events t) → NoNL c.spec ∧ NoNL c.target) (herr : ErrLabelFree errText) :
+    ∃ inner, (spine (callsOf (events t)) t.err).getLast? = some inner ∧
+      clausesC05 (events t) errText t.err (traceText (events t) errText t.err width) =
+        [true, true, clause3 inner (traceLines t errText width), true, true] := by
+  have hroot : ∃ root, (callsOf (events t)).head? = some root := by
+    rw [callsOf_events]; simp [callsK, Tree.root]
+  obtain ⟨root, hroot⟩ := hroot
+  have hrm : root ∈ callsOf (events t) := List.mem_of_mem_head? hroot
+  have hspne : spine (callsOf (events t)) t.err ≠ [] := by
+    intro h0
+    have : (spine (callsOf (events t)) t.err).map (·.idx) = [] := by rw [h0]; rfl
+    simp only [Tree.wf, Bool.and_eq_true] at hwf
+    rw [spine_events t hwf.2] at this
+    simp at this
+  obtain ⟨inner, hinner⟩ : ∃ inner, (spine (callsOf (events t)) t.err).getLast? = some inner :=
+    ⟨_, List.getLast?_eq_some_getLast hspne⟩
+  refine ⟨inner, hinner, ?_⟩
+  unfold clausesC05
+  simp only [hroot, hinner]
+  have h1 := c05_text_clause1 t hwf errText width root hroot (hrepr root hrm).2
+  have h2 := c05_text_clause2 t hwf errText width (fun c hc => (hrepr c hc).1)
+  have h4 := c05_text_clause4 t hwf errText width (fun c hc => (hrepr c hc).1)
+  have h5 := c05_text_clause5 t hwf errText width hrepr herr
+  unfold traceLines at h1 h2 h4 h5
+  rw [h1, h2, h4, h5]
   rfl
 
 /-! ### the hypotheses are needed -/
